@@ -76,7 +76,9 @@ def explicit_cmd(hist, i):
 
 
 def observe(hist, cfg, seed, skip_conn=None):
-    ex = Exec(cfg, seed=seed, track=False)
+    # odd seeds run on database files created from the schema snapshots in mon/legacy/ (an installation that
+    # pre-dates the tree under test but has the same schema version)
+    ex = Exec(cfg, seed=seed, track=False, legacy=bool(seed % 2))
     try:
         ex.start()
         rec = diff.record(ex, hist)
@@ -228,7 +230,7 @@ def run_job(pid, job, acc):
         return
     if job["kind"] == "dirdup":
         h = dir_hist(job["i"])
-        check_history(acc, h, Config(usage=bool(job["i"] % 2)), 0, "dirdup:%d" % job["i"], 50, random.Random(0))
+        check_history(acc, h, Config(usage=bool(job["i"] % 2)), job["i"] // 2, "dirdup:%d" % job["i"], 50, random.Random(0))
         return
     s = job["seed"]
     hist = generate(s, **GEN)
